@@ -3,6 +3,7 @@ SPECIFICATION TraceSpec
 CONSTANTS
   AllowDupStart = FALSE
   AllowSilentInit = FALSE
+  AllowRestartRace = FALSE
   AllowDoubleError = FALSE
   SInsts = {}
   SIds = {}
